@@ -4,6 +4,7 @@ import (
 	"bytes"
 	"fmt"
 	"math/big"
+	"os"
 	"sort"
 	"strings"
 	"testing"
@@ -497,7 +498,9 @@ func exhaustiveDirect(t *testing.T) {
 }
 
 func TestC12(t *testing.T) {
-	exhaustiveDirect(t)
+	if os.Getenv("EVMSIM_SKIP_EXHAUSTIVE") == "" { // (switch used only to measure how fast the seeded part alone finds a mutant)
+		exhaustiveDirect(t)
+	}
 	if t.Failed() {
 		return
 	}
